@@ -40,4 +40,6 @@ def main : IO Unit := do
     loop h out ({} : NameSort.DState) NameSort.driverStep {}
   | some (.list [.atom "model", .atom "persist"]) =>
     loop h out ({} : Persist.PState) Persist.driverStep {}
+  | some (.list [.atom "model", .atom "classes"]) =>
+    loop h out ({} : Classes.DState) Classes.driverStep {}
   | _ => out.putStrLn "unknown-model"
